@@ -74,6 +74,9 @@ func NewWorld(seed uint64, cfgs []PartyCfg) *World {
 	w.Got = make([][][]byte, n)
 	for i, c := range cfgs {
 		p := &Party{W: w, Idx: i, Name: string(rune('A' + i)), Cfg: c, Key: TestKey(c.KeyIdx)}
+		if c.SharedKey {
+			p.Key = SharedKey(c.KeyIdx)
+		}
 		p.build()
 		w.P = append(w.P, p)
 	}
@@ -246,6 +249,21 @@ func (w *World) GenText(p *Party, class int, alphabet int) []byte {
 		ln = ln/2 + pr.Intn(ln/2+1)
 	}
 	t := []byte(fmt.Sprintf("T%s%d.%d:", p.Name, p.Incar, n))
+	// alphabets 2..5 decorate a printable text: 2 = the text itself begins like an OTR query
+	// ("?OTRv3? is what my client shows ..."), 3 = like an OTR error, 4 = it ends in blanks and
+	// tabs, 5 = it begins like an encoded message. What the user types is the user's business.
+	deco := alphabet
+	if alphabet >= 2 {
+		alphabet = 0
+	}
+	switch deco {
+	case 2:
+		t = append([]byte([]string{"?OTRv3? ", "?OTR?v2? ", "?OTRv23? ", "?OTR? "}[pr.Intn(4)]), t...)
+	case 3:
+		t = append([]byte("?OTR Error: "), t...)
+	case 5:
+		t = append([]byte("?OTR:AAMD"), t...)
+	}
 	for i := 0; i < ln; i++ {
 		var c byte
 		switch alphabet {
@@ -257,6 +275,9 @@ func (w *World) GenText(p *Party, class int, alphabet int) []byte {
 			}
 		}
 		t = append(t, c)
+	}
+	if deco == 4 {
+		t = append(t, []string{" ", "\t", "  \t ", " \t\t"}[pr.Intn(4)]...)
 	}
 	return t
 }
